@@ -160,6 +160,17 @@ func TestVerifC03ServerAPI(t *testing.T) {
 			}
 		}
 		desc := fmt.Sprintf("case=%d;groups=%v notFound=%v notAllowed=%v newServer=%v routes=%d", idx, shape, useNF, useNA, viaNewServer, len(effs))
+		if rc.Intn(2) == 0 {
+			// a caller lists the routes before the server starts and rewrites the listing it was handed (to print
+			// it with another prefix, say): a listing is the caller's; the registered table is not changed by it
+			listing := srv.Routes()
+			for i := range listing {
+				listing[i].Path = "/display" + listing[i].Path
+				listing[i].Method = http.MethodPost
+				listing[i].Handler = nil
+			}
+			m.Count("route_listings_rewritten_before_bind", 1)
+		}
 		if err := srv.ng.bindRoutes(srv.router); err != nil {
 			m.Violate("C03:server:bind-rejected-valid-table", desc, "bindRoutes: %v", err)
 			continue
